@@ -63,4 +63,29 @@ mod verif_c04 {
         let _ = take_from_bytes::<heapless::Vec<u16, 2>>(inp);
         let _ = take_from_bytes::<[u8; 3]>(inp);
     }
+
+    #[kani::proof]
+    #[kani::unwind(8)]
+    fn total_kinds() {
+        // option, unit, enum, unit/newtype/tuple structs: every byte string up to the longest encoding (probe enum: 7)
+        let b: [u8; 7] = kani::any();
+        let l: usize = kani::any();
+        kani::assume(l <= 7);
+        let inp = &b[..l];
+        let _ = take_from_bytes::<Option<Option<u8>>>(inp);
+        let _ = take_from_bytes::<()>(inp);
+        let _ = take_from_bytes::<PE>(inp);
+        let _ = take_from_bytes::<(PUnit, PNew, PTup)>(inp);
+    }
+
+    #[kani::proof]
+    #[kani::unwind(7)]
+    fn total_char() {
+        // a char is a length byte + at most 4 bytes; one more byte covers "trailing data"
+        let b: [u8; 6] = kani::any();
+        let l: usize = kani::any();
+        kani::assume(l <= 6);
+        let inp = &b[..l];
+        let _ = take_from_bytes::<char>(inp);
+    }
 }
